@@ -1010,6 +1010,10 @@ def _lump_component(sc, v, at):
                     tup = st.targets[0]
                 elif isinstance(st, ast.For) and isinstance(st.target, ast.Tuple):
                     tup = st.target
+                # for (refine, .., include_first, include_last, _), members in lumps.items(): the key tuple is unpacked in the loop header
+                if isinstance(st, ast.For) and isinstance(st.target, ast.Tuple) and st.target.elts and isinstance(st.target.elts[0], ast.Tuple) \
+                        and v.id in [ast.unparse(e) for e in st.target.elts[0].elts] and ast.unparse(st.iter).endswith(".items()"):
+                    tup = st.target.elts[0]
                 if tup is None:
                     continue
                 names = [ast.unparse(e) for e in tup.elts]
